@@ -265,17 +265,39 @@ def _apply_add_metabolites(eng, st, model, met):
     mo0, mo1 = eng.heap_arr(st1, "_model"), eng.heap_arr(s2, "_model")
     R0, R1 = eng.heap_arr(st1, "_reaction"), eng.heap_arr(s2, "_reaction")
     y, z = qv("ay", Ref), qv("az", Ref)
-    kk, yy = qv("ah"), qv("ahy", Ref)
+    # exact INSTANCES of the assumed (universally quantified) post-condition, taken from the quantifier objects themselves with
+    # substitute_vars - pure logic, hence assumed without an obligation: `every tail element joins` at the positions n0 and n0 + 1,
+    # `every joining metabolite is in the tail` at x (that clause has no trigger: left to the solver it was found on some runs only)
+    filt = AM._is_filtered(E1, e1, n0, n1)
+    fa_elem, fa_member = filt.arg(1), filt.arg(2)
+    assert z3.is_quantifier(fa_elem) and fa_elem.is_forall() and fa_elem.num_vars() == 1
+    assert z3.is_quantifier(fa_member) and fa_member.is_forall() and fa_member.num_vars() == 1
+    i_n0, i_n1, i_x = (z3.substitute_vars(fa_elem.body(), n0), z3.substitute_vars(fa_elem.body(), n0 + 1),
+                       z3.substitute_vars(fa_member.body(), x))
+    assert z3.is_implies(i_n0) and z3.is_implies(i_n1) and z3.is_implies(i_x)
+    s2 = s2.assume(i_n0, i_n1, i_x)
+    # the sub-terms of the instances are used AS THEY ARE below (an Exists built a second time has another bound-variable name and
+    # is a different term for the solver, which then has to re-derive the equivalence through a concrete Store(...) list)
+    joins_x, holds_x, joins_a, joins_b = i_x.arg(0), i_x.arg(1), i_n0.arg(1), i_n1.arg(1)
+    k2 = qv("ak2", Id)
     lemmas = [
-        # small steps towards `the new tail is exactly [x]`, each obliged and then assumed: they put the ground terms e1[n0], e1[n0 + 1]
-        # in front of the solver (the one-shot form of this lemma took 8 - 70 s and flipped to unknown under load)
-        ("joining-is-x", FA([yy], z3.Implies(AM._joins(E1, yy), yy == x), patterns=[AM.Hh(E1, E1.s0, "_id")[yy]])),
-        ("x-joins", AM._joins(E1, x)),
-        ("tail-elements-are-x", FA([kk], z3.Implies(z3.And(n0 <= kk, kk < n1), e1[kk] == x), patterns=[e1[kk]])),
-        ("tail-holds-x", AM._done(e1, n0, n1, x)),
+        # small steps towards `the new tail is exactly [x]` and `the index gained exactly the key of x`, each obliged and then
+        # assumed (the one-shot forms took 8 - 200 s and flipped to unknown under load)
+        ("x-joins", joins_x),
+        ("tail-holds-x", holds_x),
+        ("joining-is-x", z3.And(z3.Implies(joins_a, e1[n0] == x), z3.Implies(joins_b, e1[n0 + 1] == x))),
         ("tail-nonempty", z3.And(n1 > n0, e1[n0] == x)),
         ("tail-second", z3.Implies(n1 >= n0 + 2, e1[n0 + 1] == x)),
         ("tail-is-the-metabolite", z3.And(n1 == n0 + 1, e1[n0] == x)),
+        ("index:new-key", z3.And(z3.Select(dm1, ids[x]), vl1[ids[x]] == n0)),
+        ("index:old-positions", FA([k], z3.Implies(z3.Select(dm0, k), z3.And(0 <= vl0[k], vl0[k] < n0, e1[vl0[k]] == e0[vl0[k]],
+                                                                              ids[e1[vl0[k]]] == k)), patterns=[z3.Select(dm0, k)])),
+        ("index:old-keys-kept", FA([k], z3.Implies(z3.Select(dm0, k), z3.And(z3.Select(dm1, k), vl1[k] == vl0[k])),
+                                   patterns=[z3.Select(dm0, k)])),
+        ("index:new-positions", FA([k2], z3.Implies(z3.Select(dm1, k2), z3.And(0 <= vl1[k2], vl1[k2] <= n0, ids[e1[vl1[k2]]] == k2,
+                                                                                z3.Implies(vl1[k2] < n0, e1[vl1[k2]] == e0[vl1[k2]]))),
+                                   patterns=[z3.Select(dm1, k2)])),
+        ("index:no-other-key", FA([k2], z3.Implies(z3.Select(dm1, k2), z3.Or(z3.Select(dm0, k2), k2 == ids[x])), patterns=[z3.Select(dm1, k2)])),
         ("index", z3.And(z3.Select(dm1, ids[x]), vl1[ids[x]] == n0,
                          FA([k], z3.Implies(z3.Select(dm0, k), z3.And(z3.Select(dm1, k), vl1[k] == vl0[k])), patterns=[z3.Select(dm0, k)]),
                          FA([k], z3.Implies(z3.Select(dm1, k), z3.Or(z3.Select(dm0, k), k == ids[x])), patterns=[z3.Select(dm1, k)]))),
